@@ -9,7 +9,7 @@
    hunks); whatever the declared line endings and encoding, they enter only through fs_newline / fs_recode. *)
 From Coq Require Import List Arith NArith ZArith Bool Strings.Byte.
 From Coq Require Strings.String.
-From DX Require Import Bytes Res Codec Text Json Writer Hunks Dom DomFacts.
+From DX Require Import Bytes Res Codec Text Json Writer Hunks Dom HunksFacts DomFacts DomStatsFacts.
 Import ListNotations.
 Import String.StringSyntax.
 Local Open Scope string_scope.
@@ -167,3 +167,58 @@ Proof. exact DomFacts.C13_idem_total. Qed.
 Print Assumptions C13_idem_total.
 Example C13_idem_ex : tree_stats ex_tree_out = Ok ex_tree_out.
 Proof. vm_compute. reflexivity. Qed.
+
+(* ---- end to end: the figures are the numbers of "-" and "+" lines inside the hunks (C16 + C14 + the above) ----
+   [join_lf lines] is the text made of [lines], each terminated by LF; hunk ASTs, [render_hunk], [wf_hunk],
+   [interleave], [non_header], [total_del]/[total_ins] are those of C14 (HunksFacts.v).  The declared encoding and line
+   endings enter only through fs_newline / fs_recode: the hypothesis is that the diff, once brought to UTF-8 with
+   newline LF by them, is that text (identity for ASCII-transparent encodings, transcoding for UTF-16/32). *)
+Theorem C13_file_counts : forall d diff nl diff' hs seps,
+  x_content d = Some diff -> diff <> [] -> wv_eq (kw (x_opts d) "type") binary_type = false ->
+  fs_newline (x_opts d) diff = Ok nl ->
+  fs_recode (text_of (kw (x_opts d) "encoding")) diff nl = Ok (diff', lf) ->
+  Forall wf_hunk hs -> List.length seps = S (List.length hs) -> Forall (Forall non_header) seps ->
+  let lines := interleave seps (map render_hunk hs) in
+  lines <> [] -> Forall (fun l => ~ In x0a l) lines -> diff' = join_lf lines ->
+  fs_analyse d = FStats (Z.of_nat (total_del hs)) (Z.of_nat (total_ins hs)).
+Proof. exact DomStatsFacts.C13_file_counts. Qed.
+Print Assumptions C13_file_counts.
+Theorem C13_totals_def : forall hs,
+  total_del hs = fold_right (fun a n => (countb is_del (a_body a) + n)%nat) 0%nat hs /\
+  total_ins hs = fold_right (fun a n => (countb is_ins (a_body a) + n)%nat) 0%nat hs.
+Proof. exact DomStatsFacts.C13_totals_def. Qed.
+Print Assumptions C13_totals_def.
+(* instance without guessing or transcoding: no declared encoding, line endings declared "unix" *)
+Theorem C13_file_counts_plain : forall f hs seps le,
+  x_opts (f_diff f) = le ->
+  kw le "type" = WNone -> kw le "encoding" = WNone -> kw le "line_endings" = S_ "unix" ->
+  Forall wf_hunk hs -> List.length seps = S (List.length hs) -> Forall (Forall non_header) seps ->
+  let lines := interleave seps (map render_hunk hs) in
+  lines <> [] -> Forall (fun l => ~ In x0a l) lines ->
+  x_content (f_diff f) = Some (join_lf lines) ->
+  (jget "stats" (m_content (f_meta f)) = None \/ exists o, jget "stats" (m_content (f_meta f)) = Some (JObj o)) ->
+  exists f', file_stats f = Ok f' /\
+    file_fig "deletions" f' = Z.of_nat (total_del hs) /\ file_fig "insertions" f' = Z.of_nat (total_ins hs) /\
+    file_fig "lines changed" f' = (Z.of_nat (total_del hs) + Z.of_nat (total_ins hs))%Z.
+Proof. exact DomStatsFacts.C13_file_counts_plain. Qed.
+Print Assumptions C13_file_counts_plain.
+(* the hypotheses are satisfiable: three hunks between garbage lines (C14's example), as plain bytes with declared unix
+   line endings, and the same text as UTF-16 with a BOM and guessed line endings *)
+Example C13_file_counts_ex :
+  fs_analyse {| x_opts := [(B "line_endings", S_ "unix")]; x_content := Some (join_lf ex_lines) |} = FStats 2 3 /\
+  fs_analyse {| x_opts := [(B "encoding", S_ "utf-16")]; x_content := Some ex_utf16 |} = FStats 2 3 /\
+  ex_utf16 <> join_lf ex_lines.
+Proof.
+  assert (NLF : Forall (fun l => ~ In x0a l) ex_lines).
+  { rewrite ex_lines_text. repeat constructor; vm_compute; intuition discriminate. }
+  split; [|split].
+  - apply (C13_file_counts _ (join_lf ex_lines) lf (join_lf ex_lines) ex_hs ex_seps); auto;
+      try (vm_compute; reflexivity); try discriminate.
+    + exact ex_wf.
+    + exact ex_seps_non_header.
+  - apply (C13_file_counts _ ex_utf16 [x0a; x00] (join_lf ex_lines) ex_hs ex_seps); auto;
+      try (vm_compute; reflexivity); try discriminate.
+    + exact ex_wf.
+    + exact ex_seps_non_header.
+  - vm_compute. discriminate.
+Qed.
